@@ -123,23 +123,1061 @@ theorem rp_handler (se : ScriptEnv) (m : Bool) (name : Name) (params : List Name
   have hk := pStmts_skip (handlerEnv se m params (pre ++ (prSs body ++ kw "end" :: .nl :: rest))) hpre F' (prSs body ++ kw "end" :: .nl :: rest)
   rw [hs] at hk
   have hn := pNames_print params (pre ++ (prSs body ++ kw "end" :: .nl :: rest))
-  have e1 : (Tok.id ['e','n','d']).kw "end" = true := by decide
+  have e1 : (Tok.id "end".toList).kw "end" = true := by decide
   cases m with
   | false =>
-    have k1 : isHandlerStart (Tok.id ['o','n']) = true := by decide
-    have k2 : (Tok.id ['o','n']).kw "method" = false := by decide
-    simp only [handlerEnv, k2] at hk ⊢
+    have k1 : isHandlerStart (Tok.id "on".toList) = true := by decide
+    have k2 : (Tok.id "on".toList).kw "method" = false := by decide
+    simp only [handlerEnv] at hk
     simp only [handlerKw, kw, Bool.false_eq_true, if_false] at hk hn ⊢
     simp only [pHandler, k1, if_true, hn, k2]
     simp only [hk]
-    simp [e1, eos]
+    have e2 : (Tok.id ['e','n','d']).kw "end" = true := by decide
+    simp [e2, eos]
   | true =>
-    have k1 : isHandlerStart (Tok.id ['m','e','t','h','o','d']) = true := by decide
-    have k2 : (Tok.id ['m','e','t','h','o','d']).kw "method" = true := by decide
-    simp only [handlerEnv, k2] at hk ⊢
+    have k1 : isHandlerStart (Tok.id "method".toList) = true := by decide
+    have k2 : (Tok.id "method".toList).kw "method" = true := by decide
+    simp only [handlerEnv] at hk
     simp only [handlerKw, kw, if_true] at hk hn ⊢
     simp only [pHandler, k1, if_true, hn, k2]
     simp only [hk]
-    simp [e1, eos]
+    have e2 : (Tok.id ['e','n','d']).kw "end" = true := by decide
+    simp [e2, eos]
+
+/-! ### line structure of printed code -/
+
+/-- no newline token inside -/
+def noNl (ts : List Tok) : Bool := ts.all (· != .nl)
+
+theorem noNl_append (a b : List Tok) : noNl (a ++ b) = (noNl a && noNl b) := by simp [noNl]
+theorem noNl_cons (t : Tok) (a : List Tok) : noNl (t :: a) = (t != .nl && noNl a) := by simp [noNl]
+theorem noNl_nil : noNl [] = true := rfl
+theorem noNl_mem (ts : List Tok) (h : noNl ts = true) : ∀ x ∈ ts, x ≠ .nl := by
+  intro x hx; simp [noNl] at h; exact h x hx
+
+theorem optok_ne_nl (op : BinOp) : (op.tok != .nl) = true := by cases op <;> simp [BinOp.tok, kw]
+
+mutual
+theorem prE_noNl : ∀ (e : Expr), noNl (prE e) = true
+  | .int _ => by simp [prE, noNl]
+  | .str s => by
+    by_cases h0 : s = []
+    · simp [prE, strToks, h0, noNl]
+    · cases hc : nameOfConstant s <;> simp [prE, strToks, h0, hc, noNl]
+  | .float _ _ => by simp [prE, noNl]
+  | .sym _ => by simp [prE, noNl]
+  | .var _ _ => by simp [prE, noNl]
+  | .me => by simp [prE, kw, noNl]
+  | .key _ => by simp [prE, kw, noNl]
+  | .movie _ => by simp [prE, kw, noNl]
+  | .un op a => by
+    have := prE_noNl a
+    cases op <;> simp [prE, kw, noNl_cons, this]
+  | .field a => by
+    have := prE_noNl a
+    simp [prE, kw, noNl_cons, this]
+  | .bin op a b => by
+    have ha := prE_noNl a
+    have hb := prE_noNl b
+    cases hop : op.isInfix <;> simp [prE, hop, kw, noNl_cons, noNl_append, ha, hb, optok_ne_nl, noNl_nil]
+  | .call f as => by
+    have := prArgs_noNl as
+    simp [prE, noNl_cons, noNl_append, this, noNl_nil]
+  | .mcall o m as => by
+    have ho := prE_noNl o
+    have := prTail_noNl as
+    simp [prE, noNl_cons, noNl_append, this, ho, noNl_nil]
+  | .list as => by
+    have := prArgs_noNl as
+    simp [prE, noNl_cons, noNl_append, this, noNl_nil]
+  | .plist as => by
+    have := prPairs_noNl as
+    cases as <;> simp [prE, noNl_cons, noNl_append, this, noNl_nil]
+  | .the t k as => by
+    have := prThe_noNl t k as
+    simpa [prE] using this
+  | .oprop n o => by
+    have := prE_noNl o
+    simp [prE, kw, noNl_cons, this]
+  | .chunk c a b d => by
+    have ha := prE_noNl a
+    have hb := prE_noNl b
+    have hd := prE_noNl d
+    have hcase : b = .int 0 ∨ prE (.chunk c a b d) = Tok.id c.tag.toList :: prE a ++ Tok.id "to".toList :: prE b ++ Tok.id "of".toList :: prE d := by
+      cases b with
+      | int n => cases n with
+        | zero => exact Or.inl rfl
+        | succ m => exact Or.inr (by simp [prE, kw])
+      | _ => exact Or.inr (by simp [prE, kw])
+    rcases hcase with hb0 | hpr
+    · subst hb0; simp [prE, kw, noNl_cons, noNl_append, ha, hd]
+    · rw [hpr]; simp [noNl_cons, noNl_append, ha, hb, hd]
+theorem prArgs_noNl : ∀ (es : List Expr), noNl (prArgs es) = true
+  | [] => by simp [prArgs, noNl]
+  | e :: es => by
+    have he := prE_noNl e
+    have := prTail_noNl es
+    rw [prArgs_cons]
+    simp [noNl_append, he, this]
+theorem prTail_noNl : ∀ (es : List Expr), noNl (prTail es) = true
+  | [] => by simp [prTail, noNl]
+  | e :: es => by
+    have he := prE_noNl e
+    have := prTail_noNl es
+    simp [prTail, noNl_cons, noNl_append, he, this]
+theorem prPairs_noNl : ∀ (es : List Expr), noNl (prPairs es) = true
+  | [] => by simp [prPairs, noNl]
+  | [k] => by simpa [prPairs] using prE_noNl k
+  | [k, v] => by
+    have hk := prE_noNl k
+    have hv := prE_noNl v
+    simp [prPairs, noNl_cons, noNl_append, hk, hv]
+  | k :: v :: w :: r => by
+    have hk := prE_noNl k
+    have hv := prE_noNl v
+    have := prPairs_noNl (w :: r)
+    simp only [prPairs, noNl_cons, noNl_append, hk, hv, this]
+    simp
+theorem prThe_noNl : ∀ (t : Tbl) (k : Nat) (as : List Expr), noNl (prThe t k as) = true
+  | t, k, [] => by
+    unfold prThe
+    split <;> (try split) <;> (try split) <;> simp_all [kw, noNl]
+  | t, k, [a] => by
+    have := prE_noNl a
+    unfold prThe
+    split <;> (try split) <;> (try split) <;> simp_all [kw, noNl_cons, noNl_append, noNl_nil]
+  | t, k, [a, b] => by
+    have ha := prE_noNl a
+    have hb := prE_noNl b
+    unfold prThe
+    split <;> (try split) <;> (try split) <;> simp_all [kw, noNl_cons, noNl_append, noNl_nil]
+  | t, k, a :: b :: c :: ds => by
+    unfold prThe
+    split <;> (try split) <;> (try split) <;> simp_all [kw, noNl_cons, noNl_append, noNl_nil]
+end
+
+/-- `Lines P ts`: `ts` is a sequence of complete lines (each ends in `.nl`), blank or starting with a token that satisfies `P` -/
+inductive Lines (P : Tok → Bool) : List Tok → Prop
+  | nil : Lines P []
+  | blank {r : List Tok} : Lines P r → Lines P (.nl :: r)
+  | line {t : Tok} {l r : List Tok} : P t = true → t ≠ .nl → noNl l = true → Lines P r → Lines P (t :: (l ++ .nl :: r))
+
+theorem lines_append {P : Tok → Bool} {a b : List Tok} (ha : Lines P a) (hb : Lines P b) : Lines P (a ++ b) := by
+  induction ha with
+  | nil => simpa using hb
+  | blank _ ih => exact Lines.blank ih
+  | line h1 h2 h3 _ ih =>
+    have := Lines.line h1 h2 h3 ih
+    simpa using this
+
+theorem lines_mono {P Q : Tok → Bool} (hPQ : ∀ t, P t = true → Q t = true) {a : List Tok} (ha : Lines P a) : Lines Q a := by
+  induction ha with
+  | nil => exact Lines.nil
+  | blank _ ih => exact Lines.blank ih
+  | line h1 h2 h3 _ ih => exact Lines.line (hPQ _ h1) h2 h3 ih
+
+theorem lines_head {P : Tok → Bool} {a : List Tok} (ha : Lines P a) (hne : a ≠ []) : ∃ t B, a = t :: B ∧ (t = .nl ∨ P t = true) := by
+  cases ha with
+  | nil => exact absurd rfl hne
+  | blank _ => exact ⟨_, _, rfl, Or.inl rfl⟩
+  | line h1 _ _ _ => exact ⟨_, _, rfl, Or.inr h1⟩
+
+theorem lines_one {P : Tok → Bool} (t : Tok) (l : List Tok) (h1 : P t = true) (h2 : t ≠ .nl) (h3 : noNl l = true) :
+    Lines P (t :: (l ++ [.nl])) := Lines.line h1 h2 h3 Lines.nil
+
+theorem lines_replicate {P : Tok → Bool} : ∀ (k : Nat), Lines P (List.replicate k .nl)
+  | 0 => Lines.nil
+  | k + 1 => Lines.blank (lines_replicate k)
+
+/-- heads of printed lines inside a handler: no declaration keyword, no handler start -/
+def lineHead (t : Tok) : Bool :=
+  t != .nl && !t.kw "global" && !t.kw "instance" && !t.kw "property" && !t.kw "on" && !t.kw "method"
+
+theorem lineHead_of_cmdName (s : Name) (h : cmdName s = true) : lineHead (.id s) = true := by
+  simp [cmdName, List.all] at h
+  simp [lineHead, h]
+
+theorem prCallStmt_shape (f : Name) (as : List Expr) : ∃ X, prCallStmt f as = .id f :: X ∧ noNl X = true := by
+  unfold prCallStmt
+  split
+  · split
+    · exact ⟨_, rfl, by simp [noNl_cons, prArgs_noNl]⟩
+    · exact ⟨_, rfl, prArgs_noNl _⟩
+  · split
+    · split
+      · split
+        · exact ⟨_, rfl, by simp [noNl]⟩
+        · exact ⟨_, rfl, prArgs_noNl _⟩
+      · exact ⟨_, rfl, prArgs_noNl _⟩
+    · exact ⟨_, rfl, prArgs_noNl _⟩
+
+mutual
+/-- the environment-free part of the statement fragment: what stands at the head of a printed line -/
+def headOk : Stmt → Bool
+  | .call f _ => f == "put".toList || f == "sound".toList || f == "go".toList || cmdName f
+  | .mcall o _ _ => match prE o with
+    | [.id s] => cmdName s
+    | _ => false
+  | .tell _ b => headsOk b
+  | .ifThen _ t e => headsOk t && headsOk e
+  | .repeatWhile _ b => headsOk b
+  | .repeatWith _ _ _ _ b => headsOk b
+  | .repeatIn _ _ b => headsOk b
+  | _ => true
+def headsOk : List Stmt → Bool
+  | [] => true
+  | s :: ss => headOk s && headsOk ss
+end
+
+mutual
+theorem prS_lines : ∀ (s : Stmt), headOk s = true → Lines lineHead (prS s)
+  | .set lv v, _ => by
+    have := lines_one (P := lineHead) (kw "set") (prE lv ++ .p .eq :: prE v) (by decide) (by simp [kw])
+      (by simp [noNl_append, noNl_cons, prE_noNl])
+    simpa [prS] using this
+  | .put md v lv, _ => by
+    have := lines_one (P := lineHead) (kw "put") (prE v ++ kw md.tag :: prE lv) (by decide) (by simp [kw])
+      (by simp [noNl_append, noNl_cons, prE_noNl, kw])
+    simpa [prS] using this
+  | .delete t, _ => by
+    have := lines_one (P := lineHead) (kw "delete") (prE t) (by decide) (by simp [kw]) (prE_noNl t)
+    simpa [prS] using this
+  | .hilite t, _ => by
+    have := lines_one (P := lineHead) (kw "hilite") (prE t) (by decide) (by simp [kw]) (prE_noNl t)
+    simpa [prS] using this
+  | .exit, _ => by
+    have := lines_one (P := lineHead) (kw "exit") [] (by decide) (by simp [kw]) rfl
+    simpa [prS] using this
+  | .exitRepeat, _ => by
+    have := lines_one (P := lineHead) (kw "exit") [kw "repeat"] (by decide) (by simp [kw]) (by simp [noNl, kw])
+    simpa [prS] using this
+  | .call f as, h => by
+    obtain ⟨X, hX, hn⟩ := prCallStmt_shape f as
+    have hf : lineHead (.id f) = true := by
+      simp only [headOk, Bool.or_eq_true, beq_iff_eq] at h
+      rcases h with ((hc | hc) | hc) | hc
+      · subst hc; decide
+      · subst hc; decide
+      · subst hc; decide
+      · exact lineHead_of_cmdName f hc
+    have := lines_one (P := lineHead) (.id f) X hf (by simp) hn
+    simpa [prS, hX] using this
+  | .mcall o m as, h => by
+    simp only [headOk] at h
+    split at h
+    · rename_i s hs
+      have := lines_one (P := lineHead) (.id s) (.id m :: prTail as) (lineHead_of_cmdName s h) (by simp)
+        (by simp [noNl_cons, prTail_noNl])
+      simpa [prS, hs] using this
+    · cases h
+  | .tell o b, h => by
+    have hb : headsOk b = true := by simpa [headOk] using h
+    have h1 := lines_one (P := lineHead) (kw "tell") (prE o) (by decide) (by simp [kw]) (prE_noNl o)
+    have h2 := prSs_lines b hb
+    have h3 := lines_one (P := lineHead) (kw "end") [kw "tell"] (by decide) (by simp [kw]) (by simp [noNl, kw])
+    have := lines_append h1 (lines_append h2 h3)
+    simpa [prS] using this
+  | .ifThen c t e, h => by
+    obtain ⟨ht, he⟩ : headsOk t = true ∧ headsOk e = true := by simpa [headOk] using h
+    have h1 := lines_one (P := lineHead) (kw "if") (prE c ++ [kw "then"]) (by decide) (by simp [kw])
+      (by simp [noNl_append, noNl_cons, prE_noNl, kw, noNl_nil])
+    have h2 := prSs_lines t ht
+    have h4 := lines_one (P := lineHead) (kw "end") [kw "if"] (by decide) (by simp [kw]) (by simp [noNl, kw])
+    cases e with
+    | nil =>
+      have := lines_append h1 (lines_append h2 h4)
+      simpa [prS] using this
+    | cons e1 es =>
+      have h3 := lines_one (P := lineHead) (kw "else") [] (by decide) (by simp [kw]) rfl
+      have h5 := prSs_lines (e1 :: es) he
+      have := lines_append h1 (lines_append h2 (lines_append h3 (lines_append h5 h4)))
+      simpa [prS] using this
+  | .repeatWhile c b, h => by
+    have hb : headsOk b = true := by simpa [headOk] using h
+    have h1 := lines_one (P := lineHead) (kw "repeat") (kw "while" :: prE c) (by decide) (by simp [kw])
+      (by simp [noNl_cons, prE_noNl, kw])
+    have h2 := prSs_lines b hb
+    have h3 := lines_one (P := lineHead) (kw "end") [kw "repeat"] (by decide) (by simp [kw]) (by simp [noNl, kw])
+    have := lines_append h1 (lines_append h2 h3)
+    simpa [prS] using this
+  | .repeatWith v a b down body, h => by
+    have hb : headsOk body = true := by simpa [headOk] using h
+    have h1 := lines_one (P := lineHead) (kw "repeat")
+      (kw "with" :: (prE v ++ .p .eq :: (prE a ++ ((if down then [kw "down", kw "to"] else [kw "to"]) ++ prE b)))) (by decide) (by simp [kw])
+      (by cases down <;> simp [noNl_cons, noNl_append, prE_noNl, kw])
+    have h2 := prSs_lines body hb
+    have h3 := lines_one (P := lineHead) (kw "end") [kw "repeat"] (by decide) (by simp [kw]) (by simp [noNl, kw])
+    have := lines_append h1 (lines_append h2 h3)
+    simpa [prS] using this
+  | .repeatIn v l body, h => by
+    have hb : headsOk body = true := by simpa [headOk] using h
+    have h1 := lines_one (P := lineHead) (kw "repeat") (kw "with" :: (prE v ++ kw "in" :: prE l)) (by decide) (by simp [kw])
+      (by simp [noNl_cons, noNl_append, prE_noNl, kw])
+    have h2 := prSs_lines body hb
+    have h3 := lines_one (P := lineHead) (kw "end") [kw "repeat"] (by decide) (by simp [kw]) (by simp [noNl, kw])
+    have := lines_append h1 (lines_append h2 h3)
+    simpa [prS] using this
+theorem prSs_lines : ∀ (ss : List Stmt), headsOk ss = true → Lines lineHead (prSs ss)
+  | [], _ => by simpa [prSs] using (Lines.nil (P := lineHead))
+  | s :: ss, h => by
+    obtain ⟨hs, hss⟩ : headOk s = true ∧ headsOk ss = true := by simpa [headsOk] using h
+    have := lines_append (prS_lines s hs) (prSs_lines ss hss)
+    simpa [prSs] using this
+end
+
+variable (env : Env)
+
+mutual
+/-- the statement fragment implies the environment-free head condition -/
+theorem headOk_of_frag : ∀ (s : Stmt), FragS env s → headOk s = true
+  | .set _ _, _ => rfl
+  | .put _ _ _, _ => rfl
+  | .delete _, _ => rfl
+  | .hilite _, _ => rfl
+  | .exit, _ => rfl
+  | .exitRepeat, _ => rfl
+  | .call f as, h => by
+    obtain ⟨hc, _⟩ : CallOk env f as ∧ FragL env as := h
+    simp only [headOk, Bool.or_eq_true, beq_iff_eq]
+    rcases hc with hc | ⟨hc, _⟩ | ⟨hc, _⟩ | ⟨hc, _⟩
+    · exact Or.inl (Or.inl (Or.inl hc))
+    · exact Or.inl (Or.inl (Or.inr hc))
+    · exact Or.inl (Or.inr hc)
+    · exact Or.inr hc
+  | .mcall o m as, h => by
+    obtain ⟨⟨s, hs, hc, _⟩, _⟩ : RecvStmtOk env o ∧ FragL env as := h
+    simp [headOk, hs, hc]
+  | .tell o b, h => by
+    obtain ⟨_, hb⟩ : Frag env o ∧ FragSs env b := h
+    simpa [headOk] using headsOk_of_frag b hb
+  | .ifThen c t e, h => by
+    obtain ⟨_, ht, he⟩ : Frag env c ∧ FragSs env t ∧ FragSs env e := h
+    simp [headOk, headsOk_of_frag t ht, headsOk_of_frag e he]
+  | .repeatWhile c b, h => by
+    obtain ⟨_, hb⟩ : Frag env c ∧ FragSs env b := h
+    simpa [headOk] using headsOk_of_frag b hb
+  | .repeatWith v a b _ body, h => by
+    obtain ⟨_, _, _, hb⟩ : VarOk env v ∧ Frag env a ∧ Frag env b ∧ FragSs env body := h
+    simpa [headOk] using headsOk_of_frag body hb
+  | .repeatIn v l body, h => by
+    obtain ⟨_, _, hb⟩ : VarOk env v ∧ Frag env l ∧ FragSs env body := h
+    simpa [headOk] using headsOk_of_frag body hb
+theorem headsOk_of_frag : ∀ (ss : List Stmt), FragSs env ss → headsOk ss = true
+  | [], _ => rfl
+  | s :: ss, h => by
+    obtain ⟨hs, hss⟩ : FragS env s ∧ FragSs env ss := h
+    simp [headsOk, headOk_of_frag s hs, headsOk_of_frag ss hss]
+end
+
+/-! ### what the script reader collects from the token stream: declared names, handler names, handler spans -/
+
+theorem declared_skip (k : String) (t : Tok) (ht : t ≠ .nl) (X : List Tok) : declared k (t :: X) = declared k X := by
+  cases t <;> first | exact absurd rfl ht | simp [declared]
+
+theorem declared_skips (k : String) : ∀ (l : List Tok), noNl l = true → ∀ (X : List Tok), declared k (l ++ X) = declared k X
+  | [], _, X => rfl
+  | t :: l, h, X => by
+    simp only [noNl_cons, Bool.and_eq_true, bne_iff_ne, ne_eq] at h
+    rw [List.cons_append, declared_skip k t h.1, declared_skips k l h.2]
+
+/-- lines that do not start with the keyword declare nothing -/
+theorem declared_lines (k : String) {a : List Tok} (ha : Lines (fun t => !t.kw k) a) :
+    ∀ (R : List Tok), declared k (.nl :: (a ++ R)) = declared k (.nl :: R) := by
+  induction ha with
+  | nil => intro R; rfl
+  | @blank r _ ih =>
+    intro R
+    have : declared k (.nl :: .nl :: (r ++ R)) = declared k (.nl :: (r ++ R)) := by simp [declared, kw_nl]
+    simpa using this.trans (ih R)
+  | @line t l r h1 h2 h3 _ ih =>
+    intro R
+    have hk : t.kw k = false := by simpa using h1
+    have e1 : declared k (.nl :: t :: (l ++ .nl :: r ++ R)) = declared k (t :: (l ++ .nl :: r ++ R)) := by simp [declared, hk]
+    have e2 := declared_skip k t h2 (l ++ .nl :: r ++ R)
+    have e3 := declared_skips k l h3 (.nl :: r ++ R)
+    simp only [List.cons_append, List.append_assoc] at e1 e2 e3 ⊢
+    rw [e1, e2, e3]
+    simpa using ih R
+
+/-- a declaration line declares its names -/
+theorem declared_decl (k : String) (hk : (kw k).kw k = true) (ns : List Name) (R : List Tok) :
+    declared k (.nl :: kw k :: (prNames ns ++ .nl :: R)) = ns ++ declared k (.nl :: R) := by
+  have hn := pNames_print ns R
+  have hs := declared_skips k (prNames ns) (by
+    simp only [noNl, List.all_eq_true, bne_iff_ne, ne_eq]; exact prNames_no_nl ns) (.nl :: R)
+  simp only [kw] at hk ⊢
+  simp [declared, hk, hn, hs]
+
+theorem handlerNames_skip (t : Tok) (ht : t ≠ .nl) (X : List Tok) : handlerNames (t :: X) = handlerNames X := by
+  cases t <;> first | exact absurd rfl ht | simp [handlerNames]
+
+theorem handlerNames_skips : ∀ (l : List Tok), noNl l = true → ∀ (X : List Tok), handlerNames (l ++ X) = handlerNames X
+  | [], _, X => rfl
+  | t :: l, h, X => by
+    simp only [noNl_cons, Bool.and_eq_true, bne_iff_ne, ne_eq] at h
+    rw [List.cons_append, handlerNames_skip t h.1, handlerNames_skips l h.2]
+
+theorem handlerNames_nl_notStart (t : Tok) (h : isHandlerStart t = false) (X : List Tok) :
+    handlerNames (.nl :: t :: X) = handlerNames (t :: X) := by
+  cases X with
+  | nil => cases t <;> simp [handlerNames]
+  | cons x X' => cases x <;> simp [handlerNames, h]
+
+/-- lines that do not start a handler contribute no handler name -/
+theorem handlerNames_lines {a : List Tok} (ha : Lines (fun t => !isHandlerStart t) a) :
+    ∀ (R : List Tok), handlerNames (.nl :: (a ++ R)) = handlerNames (.nl :: R) := by
+  induction ha with
+  | nil => intro R; rfl
+  | @blank r _ ih =>
+    intro R
+    have := handlerNames_nl_notStart .nl (by decide) (r ++ R)
+    simpa using this.trans (ih R)
+  | @line t l r h1 h2 h3 _ ih =>
+    intro R
+    have hk : isHandlerStart t = false := by simpa using h1
+    have e1 := handlerNames_nl_notStart t hk (l ++ .nl :: r ++ R)
+    have e2 := handlerNames_skip t h2 (l ++ .nl :: r ++ R)
+    have e3 := handlerNames_skips l h3 (.nl :: r ++ R)
+    simp only [List.cons_append, List.append_assoc] at e1 e2 e3 ⊢
+    rw [e1, e2, e3]
+    simpa using ih R
+
+theorem handlerNames_start (m : Bool) (name : Name) (X : List Tok) :
+    handlerNames (.nl :: handlerKw m :: .id name :: X) = name :: handlerNames X := by
+  cases m
+  · have : isHandlerStart (Tok.id ['o','n']) = true := by decide
+    simp [handlerKw, kw, handlerNames, this]
+  · have : isHandlerStart (Tok.id ['m','e','t','h','o','d']) = true := by decide
+    simp [handlerKw, kw, handlerNames, this]
+
+theorem handlerSpan_skip (t : Tok) (ht : t ≠ .nl) (X : List Tok) : handlerSpan (t :: X) = t :: handlerSpan X := by
+  cases t <;> first | exact absurd rfl ht | simp [handlerSpan]
+
+theorem handlerSpan_skips : ∀ (l : List Tok), noNl l = true → ∀ (X : List Tok), handlerSpan (l ++ X) = l ++ handlerSpan X
+  | [], _, X => rfl
+  | t :: l, h, X => by
+    simp only [noNl_cons, Bool.and_eq_true, bne_iff_ne, ne_eq] at h
+    rw [List.cons_append, handlerSpan_skip t h.1, handlerSpan_skips l h.2]
+    rfl
+
+/-- the span of a handler runs over all lines that do not start a handler: the lines without their last newline, followed by
+    what `handlerSpan` makes of that newline and the rest -/
+theorem handlerSpan_lines {a : List Tok} (ha : Lines (fun t => !isHandlerStart t) a) :
+    ∀ (R : List Tok), handlerSpan (.nl :: (a ++ R)) = (.nl :: a).dropLast ++ handlerSpan (.nl :: R) := by
+  induction ha with
+  | nil => intro R; rfl
+  | @blank r _ ih =>
+    intro R
+    have e : handlerSpan (.nl :: .nl :: (r ++ R)) = .nl :: handlerSpan (.nl :: (r ++ R)) := by
+      have : isHandlerStart .nl = false := by decide
+      simp [handlerSpan, this]
+    simp only [List.cons_append]
+    rw [e, ih R]
+    simp [List.dropLast]
+  | @line t l r h1 h2 h3 _ ih =>
+    intro R
+    have hk : isHandlerStart t = false := by simpa using h1
+    have e1 : handlerSpan (.nl :: t :: (l ++ .nl :: r ++ R)) = .nl :: handlerSpan (t :: (l ++ .nl :: r ++ R)) := by
+      simp [handlerSpan, hk]
+    have e2 := handlerSpan_skip t h2 (l ++ .nl :: r ++ R)
+    have e3 := handlerSpan_skips l h3 (.nl :: r ++ R)
+    simp only [List.cons_append, List.append_assoc] at e1 e2 e3 ⊢
+    rw [e1, e2, e3, ih R]
+    have : (Tok.nl :: t :: (l ++ Tok.nl :: r)).dropLast = Tok.nl :: t :: (l ++ (Tok.nl :: r).dropLast) := by
+      have e : Tok.nl :: t :: (l ++ Tok.nl :: r) = (Tok.nl :: t :: l) ++ (Tok.nl :: r) := by simp
+      rw [e, List.dropLast_append_of_ne_nil (by simp)]
+      simp
+    rw [this]
+    simp
+
+/-! ### layouts: where blank lines stand -/
+
+/-- numbers of extra blank lines: after the `factory` line, after the script's `global` lines (if any), after the `instance` line,
+    after a handler's `global` lines (if any), before every handler except the first -/
+structure Layout where
+  afterFactory : Nat := 0
+  afterGlobals : Nat := 0
+  afterInstance : Nat := 0
+  afterHGlobals : Nat := 0
+  betweenHandlers : Nat := 0
+
+def nls (k : Nat) : List Tok := List.replicate k .nl
+
+def hGlobals (s : Script) (h : Handler) : List Name := (h.globalsUsed s.globals).foldr insertName []
+
+def globalLines (gs : List Name) : List Tok := gs.flatMap (fun g => [kw "global", .id g, .nl])
+
+/-- declaration lines at the top of a handler -/
+def prPre (L : Layout) (s : Script) (h : Handler) : List Tok :=
+  (if h.isMethod ∧ lowerName h.name = "mnew".toList ∧ s.props ≠ [] then kw "instance" :: (prNames s.props ++ .nl :: nls L.afterInstance) else [])
+    ++ (globalLines (hGlobals s h) ++ (if hGlobals s h = [] then [] else nls L.afterHGlobals))
+
+def prHandlerL (L : Layout) (s : Script) (h : Handler) : List Tok :=
+  handlerKw h.isMethod :: .id h.name :: (prNames h.params ++ .nl :: (prPre L s h ++ (prSs h.body ++ [kw "end", .nl])))
+
+def prHandlersL (L : Layout) (s : Script) : List Handler → List Tok
+  | [] => []
+  | [h] => prHandlerL L s h
+  | h :: h2 :: hs => prHandlerL L s h ++ (nls L.betweenHandlers ++ prHandlersL L s (h2 :: hs))
+
+def prHeaderL (L : Layout) (s : Script) : List Tok :=
+  (if s.props ≠ [] ∧ s.factory = [] then kw "property" :: (prNames s.props ++ [.nl]) else [])
+    ++ ((if s.factory ≠ [] then kw "factory" :: .id s.factory :: .nl :: nls L.afterFactory else [])
+    ++ (globalLines s.globals ++ (if s.globals = [] then [] else nls L.afterGlobals)))
+
+/-- the script printer with a layout; `printLingo` is the layout without blank lines -/
+def printLingoL (L : Layout) (s : Script) : List Tok := prHeaderL L s ++ prHandlersL L s s.handlers
+
+theorem prHandlerL_compact (s : Script) (h : Handler) : prHandlerL {} s h = prHandler s h := by
+  simp only [prHandlerL, prHandler, prPre, nls, globalLines, hGlobals, handlerKw, List.replicate]
+  by_cases hi : h.isMethod = true ∧ lowerName h.name = "mnew".toList ∧ s.props ≠ []
+  · by_cases hg : (h.globalsUsed s.globals).foldr insertName [] = [] <;> simp [hi, hg]
+  · by_cases hg : (h.globalsUsed s.globals).foldr insertName [] = [] <;> simp [hi, hg]
+
+theorem prHandlersL_compact (s : Script) : ∀ (hs : List Handler), prHandlersL {} s hs = hs.flatMap (prHandler s)
+  | [] => rfl
+  | [h] => by simp [prHandlersL, prHandlerL_compact]
+  | h :: h2 :: hs => by
+    have := prHandlersL_compact s (h2 :: hs)
+    simp only [prHandlersL, prHandlerL_compact, this, nls, List.replicate, List.nil_append, List.flatMap_cons]
+
+theorem printLingoL_compact (s : Script) : printLingoL {} s = printLingo s := by
+  simp only [printLingoL, printLingo, prHeaderL, prHandlersL_compact, nls, globalLines, List.replicate]
+  by_cases h1 : s.props ≠ [] ∧ s.factory = [] <;> by_cases h2 : s.factory ≠ [] <;> by_cases h3 : s.globals = [] <;> simp [h1, h2, h3]
+
+/-! ### the header -/
+
+theorem skipNl_nls : ∀ (k : Nat) (X : List Tok), skipNl (nls k ++ X) = skipNl X
+  | 0, X => rfl
+  | k + 1, X => by
+    have := skipNl_nls k X
+    simpa [nls, List.replicate, skipNl] using this
+
+theorem skipNl_kw (k : String) (X : List Tok) : skipNl (kw k :: X) = kw k :: X := rfl
+theorem skipNl_handlerKw (m : Bool) (X : List Tok) : skipNl (handlerKw m :: X) = handlerKw m :: X := by cases m <;> rfl
+
+theorem pHeader_nls (f k : Nat) (X : List Tok) (s0 : Script) : pHeader (f + 1) (nls k ++ X) s0 = pHeader (f + 1) X s0 := by
+  simp only [pHeader, skipNl_nls]
+
+theorem pHeader_property (f : Nat) (ns : List Name) (R : List Tok) (s0 : Script) :
+    pHeader (f + 1) (kw "property" :: (prNames ns ++ .nl :: R)) s0 = pHeader f R { s0 with props := s0.props ++ ns } := by
+  have k1 : (Tok.id "property".toList).kw "property" = true := by decide
+  simp only [pHeader, skipNl_kw]
+  simp only [kw, k1, if_true, pNames_print]
+
+theorem pHeader_global (f : Nat) (g : Name) (R : List Tok) (s0 : Script) :
+    pHeader (f + 1) (kw "global" :: .id g :: .nl :: R) s0 = pHeader f R { s0 with globals := s0.globals ++ [g] } := by
+  have k1 : (Tok.id "global".toList).kw "property" = false := by decide
+  have k2 : (Tok.id "global".toList).kw "global" = true := by decide
+  have hn : pNames (.id g :: .nl :: R) = some ([g], R) := by simpa [prNames] using pNames_print [g] R
+  simp only [pHeader, skipNl_kw]
+  simp only [kw, k1, k2, if_true, if_false, Bool.false_eq_true, hn]
+
+theorem pHeader_factory (f : Nat) (n : Name) (R : List Tok) (s0 : Script) :
+    pHeader (f + 1) (kw "factory" :: .id n :: .nl :: R) s0 = pHeader f R { s0 with factory := n } := by
+  have k1 : (Tok.id "factory".toList).kw "property" = false := by decide
+  have k2 : (Tok.id "factory".toList).kw "global" = false := by decide
+  have k3 : (Tok.id "factory".toList).kw "factory" = true := by decide
+  simp only [pHeader, skipNl_kw]
+  simp only [kw, k1, k2, k3, if_true, if_false, Bool.false_eq_true]
+  rfl
+
+theorem pHeader_globals : ∀ (gs : List Name) (f : Nat) (R : List Tok) (s0 : Script),
+    pHeader (f + gs.length) (globalLines gs ++ R) s0 = pHeader f R { s0 with globals := s0.globals ++ gs }
+  | [], f, R, s0 => by simp [globalLines]
+  | g :: gs, f, R, s0 => by
+    have ih := pHeader_globals gs f R { s0 with globals := s0.globals ++ [g] }
+    have e : f + (g :: gs).length = (f + gs.length) + 1 := by simp; omega
+    rw [e]
+    simp only [globalLines, List.flatMap_cons, List.cons_append, List.nil_append, List.append_assoc] at ih ⊢
+    rw [pHeader_global, ih]
+
+theorem pHeader_stop (f : Nat) (m : Bool) (X : List Tok) (s0 : Script) :
+    pHeader (f + 1) (handlerKw m :: X) s0 = some (s0, handlerKw m :: X) := by
+  cases m
+  · have k1 : (Tok.id "on".toList).kw "property" = false := by decide
+    have k2 : (Tok.id "on".toList).kw "global" = false := by decide
+    have k3 : (Tok.id "on".toList).kw "factory" = false := by decide
+    simp only [pHeader, skipNl_handlerKw]
+    simp only [handlerKw, kw, k1, k2, k3, if_true, if_false, Bool.false_eq_true]
+  · have k1 : (Tok.id "method".toList).kw "property" = false := by decide
+    have k2 : (Tok.id "method".toList).kw "global" = false := by decide
+    have k3 : (Tok.id "method".toList).kw "factory" = false := by decide
+    simp only [pHeader, skipNl_handlerKw]
+    simp only [handlerKw, kw, k1, k2, k3, if_true, if_false, Bool.false_eq_true]
+
+theorem pHeader_end (f : Nat) (s0 : Script) : pHeader (f + 1) [] s0 = some (s0, []) := by simp [pHeader, skipNl]
+
+/-- what follows the header: nothing, or a handler -/
+def StartsHandler (R : List Tok) : Prop := R = [] ∨ ∃ m X, R = handlerKw m :: X
+
+theorem pHeader_done (f : Nat) (R : List Tok) (hR : StartsHandler R) (s0 : Script) : pHeader (f + 1) R s0 = some (s0, R) := by
+  rcases hR with rfl | ⟨m, X, rfl⟩
+  · exact pHeader_end f s0
+  · exact pHeader_stop f m X s0
+
+/-- the printed header reads back as the script's header fields -/
+theorem rp_header (L : Layout) (s : Script) (R : List Tok) (hR : StartsHandler R) (F : Nat) (hF : s.globals.length + 4 ≤ F) :
+    pHeader F (prHeaderL L s ++ R) { factory := [], props := [], globals := [], handlers := [] }
+      = some ({ factory := s.factory, props := if s.props ≠ [] ∧ s.factory = [] then s.props else [], globals := s.globals, handlers := [] }, R) := by
+  obtain ⟨f, rfl⟩ : ∃ f, F = f + (s.globals.length + 3) := ⟨F - (s.globals.length + 3), by omega⟩
+  -- the tail: global lines, blank lines, then the handlers
+  have tail : ∀ (s0 : Script) (f' : Nat), 1 ≤ f' →
+      pHeader (f' + s.globals.length) (globalLines s.globals ++ ((if s.globals = [] then [] else nls L.afterGlobals) ++ R)) s0
+        = some ({ s0 with globals := s0.globals ++ s.globals }, R) := by
+    intro s0 f' hf'
+    obtain ⟨f'', rfl⟩ : ∃ f'', f' = f'' + 1 := ⟨f' - 1, by omega⟩
+    rw [pHeader_globals]
+    by_cases hg : s.globals = []
+    · simp only [hg, if_true, List.nil_append]
+      exact pHeader_done f'' R hR _
+    · simp only [hg, if_false]
+      rw [pHeader_nls]
+      exact pHeader_done f'' R hR _
+  by_cases h1 : s.props ≠ [] ∧ s.factory = []
+  · have hp : prHeaderL L s ++ R = kw "property" :: (prNames s.props ++ .nl ::
+        (globalLines s.globals ++ ((if s.globals = [] then [] else nls L.afterGlobals) ++ R))) := by
+      simp [prHeaderL, h1]
+    have e : f + (s.globals.length + 3) = (f + 2 + s.globals.length) + 1 := by omega
+    rw [hp, e, pHeader_property, tail _ (f + 2) (by omega)]
+    simp [h1]
+  · by_cases h2 : s.factory = []
+    · have hp0 : s.props = [] := by
+        by_cases hh : s.props = []
+        · exact hh
+        · exact absurd ⟨hh, h2⟩ h1
+      have hp : prHeaderL L s ++ R = globalLines s.globals ++ ((if s.globals = [] then [] else nls L.afterGlobals) ++ R) := by
+        simp [prHeaderL, hp0, h2]
+      have e : f + (s.globals.length + 3) = (f + 3) + s.globals.length := by omega
+      rw [hp, e, tail _ (f + 3) (by omega)]
+      simp [hp0, h2]
+    · have hp : prHeaderL L s ++ R = kw "factory" :: .id s.factory :: .nl :: (nls L.afterFactory ++
+          (globalLines s.globals ++ ((if s.globals = [] then [] else nls L.afterGlobals) ++ R))) := by
+        simp [prHeaderL, h2]
+      have e : f + (s.globals.length + 3) = (f + 1 + s.globals.length + 1) + 1 := by omega
+      rw [hp, e, pHeader_factory, pHeader_nls]
+      have e2 : f + 1 + s.globals.length + 1 = (f + 2) + s.globals.length := by omega
+      rw [e2, tail _ (f + 2) (by omega)]
+      simp [h2]
+
+/-! ### fuel of statements against printed length -/
+
+theorem prCallStmt_len (f : Name) (as : List Expr) : 1 ≤ (prCallStmt f as).length := by
+  obtain ⟨X, hX, _⟩ := prCallStmt_shape f as
+  simp [hX]
+
+mutual
+theorem fuelS_bound : ∀ (s : Stmt), fuelS s + 1 ≤ 2 * (prS s).length
+  | .set _ _ => by simp [fuelS, prS]; omega
+  | .put _ _ _ => by simp [fuelS, prS]; omega
+  | .delete _ => by simp [fuelS, prS]; omega
+  | .hilite _ => by simp [fuelS, prS]; omega
+  | .exit => by simp [fuelS, prS]
+  | .exitRepeat => by simp [fuelS, prS]
+  | .call f as => by have := prCallStmt_len f as; simp [fuelS, prS]; omega
+  | .mcall _ _ _ => by simp [fuelS, prS]; omega
+  | .tell _ b => by have := fuelSs_bound b; simp [fuelS, prS]; omega
+  | .ifThen _ t e => by
+    have := fuelSs_bound t
+    have := fuelSs_bound e
+    cases e with
+    | nil => simp [fuelS, fuelSs, prS, prSs] at *; omega
+    | cons e1 es => simp [fuelS, prS] at *; omega
+  | .repeatWhile _ b => by have := fuelSs_bound b; simp [fuelS, prS]; omega
+  | .repeatWith _ _ _ d b => by have := fuelSs_bound b; cases d <;> simp [fuelS, prS] <;> omega
+  | .repeatIn _ _ b => by have := fuelSs_bound b; simp [fuelS, prS]; omega
+theorem fuelSs_bound : ∀ (ss : List Stmt), fuelSs ss ≤ 2 * (prSs ss).length + 1
+  | [] => by simp [fuelSs]
+  | s :: ss => by
+    have := fuelS_bound s
+    have := fuelSs_bound ss
+    simp [fuelSs, prSs]; omega
+end
+
+/-! ### the declaration lines of a handler -/
+
+theorem skip_nls : ∀ (k : Nat), Skip (nls k) k
+  | 0 => Skip.nil
+  | k + 1 => Skip.nl (skip_nls k)
+
+theorem skip_globalLines : ∀ (gs : List Name), Skip (globalLines gs) gs.length
+  | [] => Skip.nil
+  | g :: gs => by
+    have := Skip.line (k := "global") (l := [.id g]) (Or.inl rfl) (by simp) (skip_globalLines gs)
+    simpa [globalLines] using this
+
+theorem globalLines_cons (g : Name) (gs : List Name) : globalLines (g :: gs) = kw "global" :: .id g :: .nl :: globalLines gs := rfl
+
+theorem globalLines_length : ∀ (gs : List Name), (globalLines gs).length = 3 * gs.length
+  | [] => rfl
+  | g :: gs => by rw [globalLines_cons]; simp [globalLines_length gs]; omega
+
+theorem nls_length (k : Nat) : (nls k).length = k := by simp [nls]
+
+theorem skip_prPre (L : Layout) (s : Script) (h : Handler) : ∃ n, Skip (prPre L s h) n ∧ n ≤ (prPre L s h).length := by
+  have hg : ∃ n, Skip (globalLines (hGlobals s h) ++ (if hGlobals s h = [] then [] else nls L.afterHGlobals)) n
+      ∧ n ≤ (globalLines (hGlobals s h) ++ (if hGlobals s h = [] then [] else nls L.afterHGlobals)).length := by
+    by_cases hh : hGlobals s h = []
+    · rw [if_pos hh, hh]
+      exact ⟨0, by simpa [globalLines] using Skip.nil, by simp⟩
+    · rw [if_neg hh]
+      refine ⟨(hGlobals s h).length + L.afterHGlobals, skip_append (skip_globalLines _) (skip_nls _), ?_⟩
+      rw [List.length_append, globalLines_length, nls_length]
+      omega
+  obtain ⟨n, hn, hl⟩ := hg
+  unfold prPre
+  by_cases hi : h.isMethod = true ∧ lowerName h.name = "mnew".toList ∧ s.props ≠ []
+  · rw [if_pos hi]
+    refine ⟨L.afterInstance + 1 + n, ?_, ?_⟩
+    · have h1 : Skip (kw "instance" :: (prNames s.props ++ .nl :: nls L.afterInstance)) (L.afterInstance + 1) :=
+        Skip.line (k := "instance") (Or.inr (Or.inl rfl)) (prNames_no_nl s.props) (skip_nls _)
+      exact skip_append h1 hn
+    · rw [List.length_append] at hl ⊢
+      simp only [List.length_cons, List.length_append, nls_length]
+      omega
+  · rw [if_neg hi]
+    exact ⟨n, by simpa using hn, by simpa using hl⟩
+
+/-! ### the handler list -/
+
+/-- the tokens that follow a handler when the remaining handlers are `hs` -/
+def afterHandler (L : Layout) (s : Script) : List Handler → List Tok
+  | [] => []
+  | h2 :: hs => nls L.betweenHandlers ++ prHandlersL L s (h2 :: hs)
+
+theorem prHandlersL_cons (L : Layout) (s : Script) (h : Handler) (hs : List Handler) :
+    prHandlersL L s (h :: hs) = prHandlerL L s h ++ afterHandler L s hs := by
+  cases hs <;> simp [prHandlersL, afterHandler]
+
+/-- every handler body lies in the statement fragment, under the environment the script reader builds for that handler from the
+    token stream (parameters, script and handler globals, assigned names, handler names, `me` in methods) -/
+def HandlersOk (se : ScriptEnv) (L : Layout) (s : Script) : List Handler → Prop
+  | [] => True
+  | h :: hs =>
+    FragSs (handlerEnv se h.isMethod h.params (prPre L s h ++ (prSs h.body ++ kw "end" :: .nl :: afterHandler L s hs))) h.body
+      ∧ HandlersOk se L s hs
+
+theorem pHandlers_nls (se : ScriptEnv) (f k : Nat) (X : List Tok) : pHandlers se (f + 1) (nls k ++ X) = pHandlers se (f + 1) X := by
+  simp only [pHandlers, skipNl_nls]
+
+theorem rp_handlers (se : ScriptEnv) (L : Layout) (s : Script) : ∀ (hs : List Handler), HandlersOk se L s hs →
+    ∀ (F : Nat), 2 * (prHandlersL L s hs).length + hs.length + 2 ≤ F → pHandlers se F (prHandlersL L s hs) = some hs
+  | [], _, F, hF => by
+    obtain ⟨f, rfl⟩ : ∃ f, F = f + 1 := ⟨F - 1, by omega⟩
+    simp [prHandlersL, pHandlers, skipNl]
+  | h :: hs, hok, F, hF => by
+    obtain ⟨hfr, hrest⟩ := hok
+    obtain ⟨f, rfl⟩ : ∃ f, F = f + 1 := ⟨F - 1, by omega⟩
+    obtain ⟨n, hskip, hn⟩ := skip_prPre L s h
+    rw [prHandlersL_cons] at hF ⊢
+    have hlen : (prHandlerL L s h).length ≥ (prPre L s h).length + (prSs h.body).length + 4 := by
+      simp [prHandlerL]; omega
+    have hfb := fuelSs_bound h.body
+    have hH := rp_handler se h.isMethod h.name h.params (prPre L s h) n hskip h.body (afterHandler L s hs) hfr f
+      (by simp only [List.length_append] at hF; omega)
+    have hH' : pHandler se f (prHandlerL L s h ++ afterHandler L s hs) = some (h, afterHandler L s hs) := by
+      have : prHandlerL L s h ++ afterHandler L s hs
+          = handlerKw h.isMethod :: .id h.name :: (prNames h.params ++ .nl :: (prPre L s h ++ (prSs h.body ++ kw "end" :: .nl :: afterHandler L s hs))) := by
+        simp [prHandlerL]
+      rw [this, hH]
+    have hsk : skipNl (prHandlerL L s h ++ afterHandler L s hs) = prHandlerL L s h ++ afterHandler L s hs := by
+      simp only [prHandlerL, List.cons_append]; exact skipNl_handlerKw _ _
+    have hnext : pHandlers se f (afterHandler L s hs) = some hs := by
+      cases hs with
+      | nil =>
+        obtain ⟨f', rfl⟩ : ∃ f', f = f' + 1 := ⟨f - 1, by simp only [List.length_append] at hF; omega⟩
+        simp [afterHandler, pHandlers, skipNl]
+      | cons h2 hs2 =>
+        obtain ⟨f', rfl⟩ : ∃ f', f = f' + 1 := ⟨f - 1, by simp only [List.length_append] at hF; omega⟩
+        simp only [afterHandler]
+        rw [pHandlers_nls]
+        exact rp_handlers se L s (h2 :: hs2) hrest (f' + 1) (by
+          simp only [afterHandler, List.length_append, List.length_cons] at hF ⊢; omega)
+    have htx : prHandlerL L s h ++ afterHandler L s hs = handlerKw h.isMethod :: (.id h.name ::
+        (prNames h.params ++ .nl :: (prPre L s h ++ (prSs h.body ++ kw "end" :: .nl :: afterHandler L s hs)))) := by
+      simp [prHandlerL]
+    generalize handlerKw h.isMethod = t at htx
+    generalize (Tok.id h.name :: (prNames h.params ++ .nl :: (prPre L s h ++ (prSs h.body ++ kw "end" :: .nl :: afterHandler L s hs)))) = X at htx
+    rw [htx] at hsk hH'
+    simp only [pHandlers, htx, hsk, hH', hnext]
+
+/-! ### line structure of a whole handler; what `instance` lines and handler headers contribute -/
+
+theorem lines_globalLines {P : Tok → Bool} (hP : P (kw "global") = true) : ∀ (gs : List Name), Lines P (globalLines gs)
+  | [] => Lines.nil
+  | g :: gs => by
+    have := Lines.line (P := P) (t := kw "global") (l := [.id g]) (r := globalLines gs) hP (by simp [kw]) (by simp [noNl])
+      (lines_globalLines hP gs)
+    simpa [globalLines] using this
+
+theorem lines_nls {P : Tok → Bool} (k : Nat) : Lines P (nls k) := lines_replicate k
+
+/-- the lines of a handler after its header line and `instance` line -/
+def handlerTail (L : Layout) (s : Script) (h : Handler) : List Tok :=
+  globalLines (hGlobals s h) ++ ((if hGlobals s h = [] then [] else nls L.afterHGlobals) ++ (prSs h.body ++ [kw "end", .nl]))
+
+theorem handlerTail_lines (L : Layout) (s : Script) (h : Handler) (hb : headsOk h.body = true) (P : Tok → Bool)
+    (hg : P (kw "global") = true) (hP : ∀ t, lineHead t = true → P t = true) : Lines P (handlerTail L s h) := by
+  unfold handlerTail
+  refine lines_append (lines_globalLines hg _) (lines_append ?_ (lines_append (lines_mono hP (prSs_lines h.body hb)) ?_))
+  · by_cases hh : hGlobals s h = []
+    · rw [if_pos hh]; exact Lines.nil
+    · rw [if_neg hh]; exact lines_nls _
+  · have := lines_one (P := P) (kw "end") [] (hP _ (by decide)) (by simp [kw]) rfl
+    simpa using this
+
+def instDecl (s : Script) (h : Handler) : List Name :=
+  if h.isMethod ∧ lowerName h.name = "mnew".toList ∧ s.props ≠ [] then s.props else []
+
+/-- shape of a printed handler: header line, optional `instance` line (+ blank lines), tail -/
+theorem prHandlerL_shape (L : Layout) (s : Script) (h : Handler) :
+    prHandlerL L s h = handlerKw h.isMethod :: ((.id h.name :: prNames h.params) ++ .nl ::
+      ((if h.isMethod ∧ lowerName h.name = "mnew".toList ∧ s.props ≠ [] then kw "instance" :: (prNames s.props ++ .nl :: nls L.afterInstance) else [])
+        ++ handlerTail L s h)) := by
+  simp [prHandlerL, prPre, handlerTail]
+
+theorem lineHead_not_kw (k : String) (hk : k = "instance" ∨ k = "global") (t : Tok) (h : lineHead t = true) : (!t.kw k) = true := by
+  simp [lineHead] at h
+  rcases hk with hk | hk <;> subst hk <;> simp [h]
+
+theorem lineHead_not_start (t : Tok) (h : lineHead t = true) : (!isHandlerStart t) = true := by
+  simp [lineHead] at h
+  simp [isHandlerStart, h]
+
+theorem handlerKw_ne_nl (m : Bool) : handlerKw m ≠ .nl := by cases m <;> simp [handlerKw, kw]
+
+theorem declared_instance_handler (L : Layout) (s : Script) (h : Handler) (hb : headsOk h.body = true) (R : List Tok) :
+    declared "instance" (.nl :: (prHandlerL L s h ++ R)) = instDecl s h ++ declared "instance" (.nl :: R) := by
+  have hk : ∀ m, (!(handlerKw m).kw "instance") = true := by intro m; cases m <;> decide
+  have hline : Lines (fun t => !t.kw "instance") (handlerKw h.isMethod :: ((.id h.name :: prNames h.params) ++ [.nl])) :=
+    lines_one _ _ (hk _) (handlerKw_ne_nl _) (by
+      simp only [noNl, List.all_cons, List.all_eq_true, bne_iff_ne, ne_eq, Bool.and_eq_true]
+      exact ⟨by simp, prNames_no_nl _⟩)
+  have htail : Lines (fun t => !t.kw "instance") (handlerTail L s h) :=
+    handlerTail_lines L s h hb _ (by decide) (lineHead_not_kw "instance" (Or.inl rfl))
+  rw [prHandlerL_shape]
+  have e1 := declared_lines "instance" hline
+  unfold instDecl
+  by_cases hi : h.isMethod = true ∧ lowerName h.name = "mnew".toList ∧ s.props ≠ []
+  · rw [if_pos hi, if_pos hi]
+    have e0 := e1 (kw "instance" :: (prNames s.props ++ .nl :: (nls L.afterInstance ++ (handlerTail L s h ++ R))))
+    have e2 := declared_decl "instance" (by decide) s.props (nls L.afterInstance ++ (handlerTail L s h ++ R))
+    have e3 := declared_lines "instance" (lines_append (lines_nls (P := fun t => !t.kw "instance") L.afterInstance) htail) R
+    simp only [List.cons_append, List.append_assoc, List.nil_append] at e0 e2 e3 ⊢
+    rw [e0, e2, e3]
+  · rw [if_neg hi, if_neg hi]
+    have e0 := e1 (handlerTail L s h ++ R)
+    have e3 := declared_lines "instance" htail R
+    simp only [List.cons_append, List.append_assoc, List.nil_append] at e0 e3 ⊢
+    rw [e0, e3]
+
+theorem declared_instance_handlers (L : Layout) (s : Script) (se : ScriptEnv) : ∀ (hs : List Handler), HandlersOk se L s hs →
+    declared "instance" (.nl :: prHandlersL L s hs) = hs.flatMap (instDecl s)
+  | [], _ => by simp [prHandlersL, declared]
+  | h :: hs, hok => by
+    obtain ⟨hfr, hrest⟩ := hok
+    rw [prHandlersL_cons, declared_instance_handler L s h (headsOk_of_frag _ h.body hfr)]
+    cases hs with
+    | nil => simp [afterHandler, declared]
+    | cons h2 hs2 =>
+      have ih := declared_instance_handlers L s se (h2 :: hs2) hrest
+      have e := declared_lines "instance" (lines_nls (P := fun t => !t.kw "instance") L.betweenHandlers) (prHandlersL L s (h2 :: hs2))
+      simp only [afterHandler]
+      rw [e, ih]
+      simp
+
+theorem handlers_length_le (L : Layout) (s : Script) : ∀ (hs : List Handler), hs.length ≤ (prHandlersL L s hs).length
+  | [] => by simp
+  | h :: hs => by
+    have := handlers_length_le L s hs
+    rw [prHandlersL_cons]
+    cases hs with
+    | nil => simp [prHandlerL]
+    | cons h2 hs2 => simp only [afterHandler, List.length_append, List.length_cons, prHandlerL] at this ⊢; omega
+
+/-! ### the script -/
+
+/-- script-level part of the environments: what `parseScript` collects before it reads the handlers -/
+def scriptEnvOf (L : Layout) (s : Script) : ScriptEnv :=
+  { props := s.props, globals := s.globals, handlers := handlerNames (.nl :: prHandlersL L s s.handlers) }
+
+/-- the scripts the round-trip theorem covers: the property names are declared exactly once (a `property` line, or the `instance`
+    line of the one `mNew` method of a factory), and every handler body lies in the statement fragment -/
+def ScriptOk (L : Layout) (s : Script) : Prop :=
+  ((if s.props ≠ [] ∧ s.factory = [] then s.props else []) ++ s.handlers.flatMap (instDecl s) = s.props)
+    ∧ HandlersOk (scriptEnvOf L s) L s s.handlers
+
+theorem startsHandler_handlers (L : Layout) (s : Script) (hs : List Handler) : StartsHandler (prHandlersL L s hs) := by
+  cases hs with
+  | nil => exact Or.inl rfl
+  | cons h hs =>
+    exact Or.inr ⟨h.isMethod, (Tok.id h.name :: (prNames h.params ++ .nl :: (prPre L s h ++ (prSs h.body ++ [kw "end", .nl])))) ++ afterHandler L s hs,
+      by rw [prHandlersL_cons]; simp [prHandlerL]⟩
+
+/-- the script reader inverts the script printer, in every layout -/
+theorem rp_script (L : Layout) (s : Script) (h : ScriptOk L s) : parseScript (printLingoL L s) = some s := by
+  obtain ⟨hprops, hok⟩ := h
+  have hlenH : (prHeaderL L s).length ≥ 3 * s.globals.length := by
+    simp only [prHeaderL, List.length_append, globalLines_length]; omega
+  have hH := rp_header L s (prHandlersL L s s.handlers) (startsHandler_handlers L s s.handlers)
+    (4 * (printLingoL L s).length + 16) (by simp only [printLingoL, List.length_append]; omega)
+  have hD := declared_instance_handlers L s (scriptEnvOf L s) s.handlers hok
+  have hHs := rp_handlers (scriptEnvOf L s) L s s.handlers hok (4 * (printLingoL L s).length + 16) (by
+    have := handlers_length_le L s s.handlers
+    simp only [printLingoL, List.length_append]; omega)
+  unfold parseScript
+  simp only [printLingoL] at hH hHs ⊢
+  simp only [hH, hD, hprops]
+  simp only [scriptEnvOf] at hHs
+  simp only [hHs]
+
+
+/-! ### the environments the script reader builds, made explicit -/
+
+theorem lines_instPart {P : Tok → Bool} (hP : P (kw "instance") = true) (L : Layout) (s : Script) (h : Handler) :
+    Lines P (if h.isMethod ∧ lowerName h.name = "mnew".toList ∧ s.props ≠ [] then kw "instance" :: (prNames s.props ++ .nl :: nls L.afterInstance) else []) := by
+  by_cases hi : h.isMethod = true ∧ lowerName h.name = "mnew".toList ∧ s.props ≠ []
+  · rw [if_pos hi]
+    exact Lines.line hP (by simp [kw]) (by
+      simp only [noNl, List.all_eq_true, bne_iff_ne, ne_eq]; exact prNames_no_nl _) (lines_nls _)
+  · rw [if_neg hi]; exact Lines.nil
+
+/-- everything of a printed handler after its header line, as lines -/
+theorem handlerBody_lines (L : Layout) (s : Script) (h : Handler) (hb : headsOk h.body = true) (P : Tok → Bool)
+    (hi : P (kw "instance") = true) (hg : P (kw "global") = true) (hP : ∀ t, lineHead t = true → P t = true) :
+    Lines P (prPre L s h ++ (prSs h.body ++ [kw "end", .nl])) := by
+  have e : prPre L s h ++ (prSs h.body ++ [kw "end", .nl])
+      = (if h.isMethod ∧ lowerName h.name = "mnew".toList ∧ s.props ≠ [] then kw "instance" :: (prNames s.props ++ .nl :: nls L.afterInstance) else [])
+        ++ handlerTail L s h := by simp [prPre, handlerTail]
+  rw [e]
+  exact lines_append (lines_instPart hi L s h) (handlerTail_lines L s h hb P hg hP)
+
+theorem handlerNames_handler (L : Layout) (s : Script) (h : Handler) (hb : headsOk h.body = true) (R : List Tok) :
+    handlerNames (.nl :: (prHandlerL L s h ++ R)) = h.name :: handlerNames (.nl :: R) := by
+  have hl := handlerBody_lines L s h hb (fun t => !isHandlerStart t) (by decide) (by decide) lineHead_not_start
+  have e1 := handlerNames_start h.isMethod h.name (prNames h.params ++ .nl :: (prPre L s h ++ (prSs h.body ++ [kw "end", .nl]) ++ R))
+  have e2 := handlerNames_skips (prNames h.params) (by
+    simp only [noNl, List.all_eq_true, bne_iff_ne, ne_eq]; exact prNames_no_nl _) (.nl :: (prPre L s h ++ (prSs h.body ++ [kw "end", .nl]) ++ R))
+  have e3 := handlerNames_lines hl R
+  simp only [prHandlerL, List.cons_append, List.append_assoc] at e1 e2 e3 ⊢
+  rw [e1, e2, e3]
+
+/-- the handler names the script reader collects are the handlers' names, in order -/
+theorem handlerNames_handlers (L : Layout) (s : Script) : ∀ (hs : List Handler), (∀ h ∈ hs, headsOk h.body = true) →
+    handlerNames (.nl :: prHandlersL L s hs) = hs.map (·.name)
+  | [], _ => by simp [prHandlersL, handlerNames]
+  | h :: hs, hok => by
+    rw [prHandlersL_cons, handlerNames_handler L s h (hok h (by simp))]
+    cases hs with
+    | nil => simp [afterHandler, handlerNames]
+    | cons h2 hs2 =>
+      have ih := handlerNames_handlers L s (h2 :: hs2) (fun x hx => hok x (by simp [hx]))
+      have e := handlerNames_lines (lines_nls (P := fun t => !isHandlerStart t) L.betweenHandlers) (prHandlersL L s (h2 :: hs2))
+      simp only [afterHandler]
+      rw [e, ih]
+      simp
+
+theorem handlerSpan_nls_handler : ∀ (k : Nat) (m : Bool) (X : List Tok), handlerSpan (.nl :: (nls k ++ handlerKw m :: X)) = nls k
+  | 0, m, X => by
+    have : isHandlerStart (handlerKw m) = true := by cases m <;> decide
+    simp [nls, handlerSpan, this]
+  | k + 1, m, X => by
+    have ih := handlerSpan_nls_handler k m X
+    have : isHandlerStart .nl = false := by decide
+    simp only [nls, List.replicate, List.cons_append] at ih ⊢
+    simp [handlerSpan, this, ih]
+
+theorem declared_nls (key : String) : ∀ (k : Nat), declared key (nls k) = []
+  | 0 => rfl
+  | 1 => by simp [nls, declared]
+  | k + 2 => by
+    have ih := declared_nls key (k + 1)
+    simp only [nls, List.replicate] at ih ⊢
+    simp [declared, kw_nl, ih]
+
+theorem declared_globalLines : ∀ (gs : List Name) (R : List Tok),
+    declared "global" (.nl :: (globalLines gs ++ R)) = gs ++ declared "global" (.nl :: R)
+  | [], R => rfl
+  | g :: gs, R => by
+    have e := declared_decl "global" (by decide) [g] (globalLines gs ++ R)
+    simp only [prNames, List.cons_append, List.nil_append] at e
+    rw [globalLines_cons]
+    simp only [List.cons_append]
+    rw [e, declared_globalLines gs R]
+
+/-- the tokens after a handler: nothing, or blank lines and the next handler -/
+theorem afterHandler_shape (L : Layout) (s : Script) (hs : List Handler) :
+    afterHandler L s hs = [] ∨ ∃ m X, afterHandler L s hs = nls L.betweenHandlers ++ handlerKw m :: X := by
+  cases hs with
+  | nil => exact Or.inl rfl
+  | cons h2 hs2 =>
+    refine Or.inr ⟨h2.isMethod, (Tok.id h2.name :: (prNames h2.params ++ .nl :: (prPre L s h2 ++ (prSs h2.body ++ [kw "end", .nl])))) ++ afterHandler L s hs2, ?_⟩
+    show nls L.betweenHandlers ++ prHandlersL L s (h2 :: hs2) = _
+    rw [prHandlersL_cons]
+    simp [prHandlerL]
+
+/-- **the handler's own `global` declarations, as the script reader sees them, are exactly the printed ones** -/
+theorem declared_global_span (L : Layout) (s : Script) (h : Handler) (hs : List Handler) (hb : headsOk h.body = true) :
+    declared "global" (.nl :: handlerSpan (prPre L s h ++ (prSs h.body ++ kw "end" :: .nl :: afterHandler L s hs))) = hGlobals s h := by
+  -- the span is the handler's lines without the last newline, followed by the blank lines before the next handler
+  have hl := handlerBody_lines L s h hb (fun t => !isHandlerStart t) (by decide) (by decide) lineHead_not_start
+  have hsp := handlerSpan_lines hl (afterHandler L s hs)
+  have hne : ∃ t B, prPre L s h ++ (prSs h.body ++ [kw "end", .nl]) = t :: B ∧ isHandlerStart t = false := by
+    obtain ⟨t, B, h1, h2⟩ := lines_head hl (by simp)
+    refine ⟨t, B, h1, ?_⟩
+    rcases h2 with h2 | h2
+    · subst h2; decide
+    · simpa using h2
+  obtain ⟨t, B, htB, hts⟩ := hne
+  have e0 : Tok.nl :: handlerSpan (prPre L s h ++ (prSs h.body ++ kw "end" :: .nl :: afterHandler L s hs))
+      = handlerSpan (.nl :: (prPre L s h ++ (prSs h.body ++ [kw "end", .nl]) ++ afterHandler L s hs)) := by
+    have : prPre L s h ++ (prSs h.body ++ kw "end" :: .nl :: afterHandler L s hs)
+        = (prPre L s h ++ (prSs h.body ++ [kw "end", .nl])) ++ afterHandler L s hs := by simp
+    rw [this, htB]
+    simp [handlerSpan, hts]
+  rw [e0, hsp]
+  -- drop the last newline
+  have hdl : (Tok.nl :: (prPre L s h ++ (prSs h.body ++ [kw "end", .nl]))).dropLast = .nl :: (prPre L s h ++ (prSs h.body ++ [kw "end"])) := by
+    have : Tok.nl :: (prPre L s h ++ (prSs h.body ++ [kw "end", .nl])) = (Tok.nl :: (prPre L s h ++ (prSs h.body ++ [kw "end"]))) ++ [.nl] := by simp
+    rw [this, List.dropLast_concat]
+  rw [hdl]
+  -- what follows: a newline (end of input) or the blank lines before the next handler; neither declares anything
+  have htailT : ∃ T, handlerSpan (.nl :: afterHandler L s hs) = nls T := by
+    rcases afterHandler_shape L s hs with h0 | ⟨m, X, h1⟩
+    · rw [h0]; exact ⟨1, by simp [handlerSpan, nls]⟩
+    · rw [h1]; exact ⟨_, handlerSpan_nls_handler _ m X⟩
+  obtain ⟨T, hT⟩ := htailT
+  rw [hT]
+  -- now count the declarations line by line
+  have hinst := lines_instPart (P := fun t => !t.kw "global") (by decide) L s h
+  have hstm : Lines (fun t => !t.kw "global") ((if hGlobals s h = [] then [] else nls L.afterHGlobals) ++ prSs h.body) := by
+    refine lines_append ?_ (lines_mono (lineHead_not_kw "global" (Or.inr rfl)) (prSs_lines h.body hb))
+    by_cases hh : hGlobals s h = []
+    · rw [if_pos hh]; exact Lines.nil
+    · rw [if_neg hh]; exact lines_nls _
+  have e1 := declared_lines "global" hinst
+    (globalLines (hGlobals s h) ++ (((if hGlobals s h = [] then [] else nls L.afterHGlobals) ++ prSs h.body) ++ (kw "end" :: nls T)))
+  have e2 := declared_globalLines (hGlobals s h) (((if hGlobals s h = [] then [] else nls L.afterHGlobals) ++ prSs h.body) ++ (kw "end" :: nls T))
+  have e3 := declared_lines "global" hstm (kw "end" :: nls T)
+  have e4 : declared "global" (.nl :: kw "end" :: nls T) = [] := by
+    have k1 : (Tok.id ['e','n','d']).kw "global" = false := by decide
+    have := declared_nls "global" T
+    simp only [kw]
+    cases T with
+    | zero => simp [nls, declared, k1]
+    | succ T' =>
+      have e : declared "global" (Tok.id ['e','n','d'] :: nls (T' + 1)) = declared "global" (nls (T' + 1)) :=
+        declared_skip "global" _ (by simp) _
+      simp [declared, k1, e, this]
+  have shape : Tok.nl :: (prPre L s h ++ (prSs h.body ++ [kw "end"])) ++ nls T
+      = .nl :: ((if h.isMethod ∧ lowerName h.name = "mnew".toList ∧ s.props ≠ [] then kw "instance" :: (prNames s.props ++ .nl :: nls L.afterInstance) else [])
+          ++ (globalLines (hGlobals s h) ++ (((if hGlobals s h = [] then [] else nls L.afterHGlobals) ++ prSs h.body) ++ (kw "end" :: nls T)))) := by
+    simp [prPre]
+  rw [shape, e1, e2, e3, e4]
+  simp
+
+/-- the reference layout (no blank lines) -/
+theorem rp_script_compact (s : Script) (h : ScriptOk {} s) : parseScript (printLingo s) = some s := by
+  rw [← printLingoL_compact]; exact rp_script {} s h
 
 end Drx.Spec
